@@ -316,6 +316,9 @@ def run(ctx: Ctx):
         "occurrence sequences are expanded by dateutil.rrule on both sides (text vs. an independent kwargs mapping of the supplied parts); first 12 occurrences, two DTSTARTs",
         "RSCALE / SKIP / leap-month rules and X- parts have no expander semantics and are checked structurally only",
     ]
+    # ------------------------------------------------------------- FRESH: history independence of returned objects (spec/Fresh.tla)
+    from vf import fresh
+    fresh.step(ctx, "C19")
     return ctx.finish(rule=(
         "FREQ x all subsets of <=2/3 further parts from a pool of 33 part instances (single/multiple, signed, ordinal weekdays, leap "
         "month, three UNTIL kinds, RSCALE, SKIP, X-) in every insertion order; permuted / trailing-';' texts; random many-valued "
